@@ -45,13 +45,14 @@ pub fn stress(path: &str) {
         if f.len() < 2 {
             continue;
         }
-        if let Ok(n) = build_operator_tree::<DefaultNumericTypes>(&crate::canon::unhex(f[1])) {
-            trees.push((f[0].to_string(), n));
+        let src = crate::canon::unhex(f[1]);
+        if let Ok(n) = build_operator_tree::<DefaultNumericTypes>(&src) {
+            trees.push((f[0].to_string(), n, src));
         }
     }
     let trees = Arc::new(trees);
     let sequential: Vec<String> =
-        trees.iter().map(|(_, n)| crate::canon::result_text(&n.eval_with_context(&*ctx))).collect();
+        trees.iter().map(|(_, n, _)| crate::canon::result_text(&n.eval_with_context(&*ctx))).collect();
     let sequential = Arc::new(sequential);
     let threads = 16;
     let rounds = 40;
@@ -111,13 +112,55 @@ pub fn stress(path: &str) {
             nbad += 1;
         }
     }
+    // third phase: the string-level entry points (tokenizer and tree builder run concurrently too), a typed one, and
+    // evaluation of the SHARED trees against a mutable context of the thread's own
+    let barrier = Arc::new(std::sync::Barrier::new(threads));
+    let mut handles = vec![];
+    for t in 0..threads {
+        let (trees, ctx, sequential, barrier) = (trees.clone(), ctx.clone(), sequential.clone(), barrier.clone());
+        handles.push(std::thread::spawn(move || {
+            let mut bad = vec![];
+            let n = trees.len();
+            let mut own = (*ctx).clone();
+            barrier.wait();
+            for j in 0..n {
+                let i = (j + t * n / threads) % n;
+                if trees[i].2.len() > 400 {
+                    continue;
+                }
+                let a = crate::canon::result_text(&eval_with_context(&trees[i].2, &*ctx));
+                let b = crate::canon::result_text(&trees[i].1.eval_with_context_mut(&mut own));
+                let c = crate::canon::result_text(&eval_with_context_mut(&trees[i].2, &mut own));
+                let d = match (trees[i].1.eval_int_with_context(&*ctx), trees[i].1.eval_with_context(&*ctx)) {
+                    (Ok(x), Ok(Value::Int(y))) => x == y,
+                    (Err(_), Ok(Value::Int(_))) | (Ok(_), _) => false,
+                    _ => true,
+                };
+                for got in [a, b, c] {
+                    if got != sequential[i] {
+                        bad.push(format!("{}\t{}\t{}", trees[i].0, sequential[i], got));
+                    }
+                }
+                if !d {
+                    bad.push(format!("{}\t{}\teval_int_with_context disagrees", trees[i].0, sequential[i]));
+                }
+            }
+            bad
+        }));
+    }
+    for h in handles {
+        for b in h.join().unwrap().into_iter().take(3) {
+            println!("MISMATCH\t{}", b);
+            nbad += 1;
+        }
+    }
     println!(
-        "THREADS\ttrees={}\tthreads={}\trounds={}+{}\tevaluations={}\tmismatches={}",
+        "THREADS\ttrees={}\tthreads={}\trounds={}+{}+strings\tevaluations={}\tmismatches={}",
         trees.len(),
         threads,
         rounds,
         rounds2,
-        trees.len() * threads * (rounds + rounds2),
+        trees.len() * threads * (rounds + rounds2 + 4),
         nbad
     );
 }
